@@ -225,6 +225,7 @@ type env struct {
 	}
 	drifts int
 	skipped int // defect cases replayed without the vector path
+	fetchCases, faulted int
 	quiet  bool // negative control: count drift, do not report it
 	lastQuiet string
 }
@@ -609,6 +610,106 @@ func (u *uni) wideTok(kind string, k, rep int) string {
 	return u.unitTok(kind, k)
 }
 
+// ------------------------------------------------------------ fault cases
+
+// FCase is one line exported by TLC from VngFetch.tla.
+type FCase struct {
+	Seq   []Elem `json:"seq"`
+	Ty    []Term `json:"ty"`
+	Segs  []int  `json:"segs"`
+	Armed int    `json:"armed"`
+	Log   []struct {
+		Ok    bool `json:"ok"`
+		Reads int  `json:"reads"`
+	} `json:"log"`
+}
+
+// checkFetchCase fetches one cached object len(Log) times with a one-shot
+// ReadAt failure at the armed segment.  Oracle: a fetch returns an error
+// only when the injected failure was delivered in it, otherwise the written
+// sequence -- in particular the fetch after the failed one.
+func (e *env) checkFetchCase(family string, fc *FCase, uniIdx int) error {
+	c := e.c
+	u := newUni(uniIdx)
+	req := &request{Universe: uniIdx, Ty: fc.Ty, Fetches: len(fc.Log), Arm: fc.Armed}
+	for _, el := range fc.Seq {
+		s, err := u.value(fc.Ty[el.T-1], el.D, u.unitTok)
+		if err != nil {
+			return err
+		}
+		req.Values = append(req.Values, s)
+		req.TIdx = append(req.TIdx, el.T)
+	}
+	wit := map[string]any{"kind": "fetch", "family": family, "universe": uniIdx, "values": req.Values, "armed_segment": fc.Armed, "fetches": len(fc.Log)}
+	run := <-e.pool
+	defer func() { e.pool <- run }()
+	out, err := run.do(req)
+	if err != nil {
+		return err
+	}
+	e.mu.Lock()
+	defer e.mu.Unlock()
+	e.fetchCases++
+	if fc.Armed > 0 {
+		e.faulted++
+	}
+	if out.crashed {
+		c.Violate("fetch-after-io-fault:crash", fmt.Sprintf("fetching the cached object of %v again after a failed read of segment %d panics in stage %q: %s", req.Values, fc.Armed, out.stage, out.panic), wit)
+		return nil
+	}
+	res := out.res
+	if res.Err != "" {
+		return fmt.Errorf("fetch case %v: %s", req.Values, res.Err)
+	}
+	if len(res.Fetched) != len(fc.Log) {
+		return fmt.Errorf("fetch case %v: %d fetch results for %d fetches", req.Values, len(res.Fetched), len(fc.Log))
+	}
+	suspicious := false
+	for k, fr := range res.Fetched {
+		switch {
+		case fr.Err != "" && !fr.Fired:
+			suspicious = true
+			c.Violate("fetch-after-io-fault:error-without-fault", fmt.Sprintf("fetch %d of the cached object of %v fails (%s) although no read failed in it (segment %d failed once earlier)", k+1, req.Values, fr.Err, fc.Armed), wit)
+		case fr.Err == "" && fr.Fired:
+			suspicious = true
+			c.Violate("fetch-after-io-fault:error-swallowed", fmt.Sprintf("fetch %d of %v returns %v although the read of segment %d failed in it", k+1, req.Values, fr.Vals, fc.Armed), wit)
+		case fr.Err == "" && strings.Join(fr.Vals, "\n") != strings.Join(res.In, "\n"):
+			suspicious = true
+			c.Violate("fetch-after-io-fault:wrong-data", fmt.Sprintf("fetch %d of the cached object returns %v for the written sequence %v (the read of segment %d failed once in an earlier fetch)", k+1, fr.Vals, res.In, fc.Armed), wit)
+		}
+		// binding: which fetch fails and how many segments each one reads
+		if (fr.Err == "") != fc.Log[k].Ok || fr.Reads != fc.Log[k].Reads {
+			e.drift("cached fetch %d of %v with segment %d failing once: spec predicts ok=%v reads=%d, real ok=%v reads=%d (%s)", k+1, req.Values, fc.Armed, fc.Log[k].Ok, fc.Log[k].Reads, fr.Err == "", fr.Reads, fr.Err)
+		}
+	}
+	if res.NSegs != len(fc.Segs) {
+		e.drift("segments read by a fetch of %v: spec predicts %d, real %d", req.Values, len(fc.Segs), res.NSegs)
+	}
+	if suspicious {
+		run.reset()
+	}
+	return nil
+}
+
+func parseFCases(res *core.TLCResult) ([]FCase, error) {
+	var out []FCase
+	for _, p := range res.Prints {
+		if !strings.HasPrefix(p, "\"") {
+			continue
+		}
+		var s string
+		if err := json.Unmarshal([]byte(p), &s); err != nil {
+			return nil, err
+		}
+		var fc FCase
+		if err := json.Unmarshal([]byte(s), &fc); err != nil {
+			return nil, fmt.Errorf("cannot parse exported fetch case: %v", err)
+		}
+		out = append(out, fc)
+	}
+	return out, nil
+}
+
 // ----------------------------------------------------------------- boundary
 
 // boundary binds the encoding rule at the real constant: columns with d
@@ -858,6 +959,7 @@ func parseCases(res *core.TLCResult) ([]Case, error) {
 func run(c *core.Ctx) error {
 	c.Trust("TLC 1.8; the harness's instantiation of abstract values as ZSON literals (zson parser) and its projection of real values/metadata onto the spec's vocabulary; child-process isolation of panics")
 	c.Assume("type families of depth <= 3 (primitives incl. 8-bit and enum, records, nested records, arrays/sets/maps of records, unions, named and error types), sequences of <= 3-4 values (scaled x255 for the dictionary boundary), primitive tokens mapped to int64/float64/duration/time, string/bytes, uint8/int8/bool variants; compression codec and segment byte layout are exercised, not modelled")
+	c.Note("VngFetch.tla: one cached vcache.Object fetched 3 times with a one-shot ReadAt failure at every segment (file order); a fetch fails only when the failure is delivered in it, every other fetch returns the written sequence and reads nothing twice")
 	c.Rule("cases = every value sequence up to MaxLen over each family's alphabet enumerated by TLC from VngEnc.tla (with the predicted column tree and the predicted results of the row reader, the vector path and each projection), instantiated with a seed-chosen variant of concrete types at scale 1 and, for a sample, at scale 255 (columns of 255/256/257 distinct values), plus boundary columns of 1,2,255,256,257,300 distinct values x null placement x nesting whose kind is predicted by the spec's rule table at DictMax=256; distinct = (family, sequence, scale) / boundary parameters; non-trivial = the sequence is non-empty")
 	e := &env{c: c, kinds: map[string]int{}, defect: map[string]int{}}
 	nrun := 8
@@ -886,38 +988,60 @@ func run(c *core.Ctx) error {
 		families = strings.Split(only, ",")
 	}
 	type tout struct {
-		res   *core.TLCResult
-		cases []Case
-		err   error
+		res    *core.TLCResult
+		cases  []Case
+		fcases []FCase
+		err    error
 	}
-	outs := make([]tout, len(families)+1)
+	fetchFams := []string{"rec", "arr"}
+	if !c.Quick() {
+		fetchFams = []string{"rec", "arr", "nest", "wrap"}
+	}
+	if os.Getenv("C03_ONLY") != "" {
+		fetchFams = nil
+	}
+	runs := append(append([]string{}, families...), "rule")
+	for _, f := range fetchFams {
+		runs = append(runs, "fetch-"+f)
+	}
+	outs := make([]tout, len(runs))
 	var wg sync.WaitGroup
-	sem := make(chan struct{}, 7)
-	for i, f := range append(families, "rule") {
+	sem := make(chan struct{}, 9)
+	for i, f := range runs {
 		wg.Add(1)
 		go func(i int, f string) {
 			defer wg.Done()
 			sem <- struct{}{}
 			defer func() { <-sem }()
-			cfg := "VngEnc." + f + "." + tier + ".cfg"
+			module, cfg := "VngEnc", "VngEnc."+f+"."+tier+".cfg"
 			if f == "rule" {
 				cfg = "VngEnc.rule.cfg"
 			}
-			res := c.MustHold(core.TLCRun{Module: "VngEnc", Cfg: cfg, Workers: 4, Timeout: 15 * time.Minute})
+			if strings.HasPrefix(f, "fetch-") {
+				module, cfg = "VngFetch", "VngFetch."+strings.TrimPrefix(f, "fetch-")+"."+tier+".cfg"
+			}
+			res := c.MustHold(core.TLCRun{Module: module, Cfg: cfg, Workers: 4, Timeout: 15 * time.Minute})
 			if res == nil {
 				outs[i].err = fmt.Errorf("TLC run %s did not hold", f)
 				return
 			}
 			outs[i].res = res
-			if f != "rule" {
+			if strings.HasPrefix(f, "fetch-") {
+				outs[i].fcases, outs[i].err = parseFCases(res)
+			} else if f != "rule" {
 				outs[i].cases, outs[i].err = parseCases(res)
 			}
 		}(i, f)
 	}
 	wg.Wait()
-	for i, f := range append(families, "rule") {
+	for i, f := range runs {
 		if outs[i].err != nil {
 			return fmt.Errorf("%s: %w", f, outs[i].err)
+		}
+		if strings.HasPrefix(f, "fetch-") {
+			c.Logf("TLC %-10s %6d states, %d fetch schedules: FetchOK holds (%.1fs)", f, outs[i].res.Distinct, len(outs[i].fcases), outs[i].res.Wall.Seconds())
+			c.Set("tlc_"+f, map[string]any{"states": outs[i].res.Distinct, "schedules": len(outs[i].fcases), "wall_s": outs[i].res.Wall.Seconds()})
+			continue
 		}
 		if f == "rule" {
 			for _, p := range outs[i].res.Prints {
@@ -980,9 +1104,41 @@ func run(c *core.Ctx) error {
 			}
 		}
 	}
+	// cached objects fetched repeatedly with a one-shot storage failure
+	phase1 := 0
+	for i, f := range runs {
+		if !strings.HasPrefix(f, "fetch-") {
+			continue
+		}
+		for j := range outs[i].fcases {
+			f := f
+			fc := &outs[i].fcases[j]
+			key, _ := json.Marshal(fc.Seq)
+			uni := pickUniverse(c.Seed, f+string(key))
+			if strings.HasSuffix(f, "arr") {
+				uni -= uni % 4
+			}
+			if fc.Armed > 0 && fc.Segs[fc.Armed-1] == 1 {
+				phase1++
+			}
+			jobs = append(jobs, func() error {
+				if err := e.checkFetchCase(f, fc, uni); err != nil {
+					return err
+				}
+				c.Eval(fmt.Sprintf("%s|%s|%d", f, key, fc.Armed), fc.Armed > 0)
+				return nil
+			})
+		}
+	}
+	if len(fetchFams) > 0 && phase1 == 0 {
+		c.Inconclusive("vacuous: no fetch schedule fails the read of a null run-length segment")
+	}
+	c.Set("fetch_schedules_failing_a_null_run_segment", phase1)
 	if err := runJobs(jobs, cap(e.pool)); err != nil {
 		return err
 	}
+	c.Set("cached_fetch_schedules_replayed", e.fetchCases)
+	c.Set("cached_fetch_schedules_with_fault", e.faulted)
 	c.Logf("replayed %d cases at scale 1 and %d at scale 255 on the real writer/readers: %d drifted, %d violations", total, wide, e.drifts, c.Violations())
 	c.Set("cases_replayed", total)
 	c.Set("cases_at_dictionary_scale", wide)
